@@ -660,6 +660,11 @@ func (g *gen) c06word(max int) string {
 
 // c06validSlotEntry: what sanitize.go's start-up check accepts (strconv.Atoi succeeds): the generator's own
 // syntactic rule, not the code's.
+// c06Slot: the slot of a key as the GENERATOR and the case lines state it — the external redis-go-cluster implementation
+// (C15 compares it with the specification on every run), never the tool's own KeyToSlot, which is what the slot filter
+// under test calls.
+func c06Slot(k string) int { return c15RedisSlotForGen([]byte(k)) }
+
 func (g *gen) c06slotEntry(n int) string {
 	switch g.r.Intn(8) {
 	case 0:
@@ -746,7 +751,12 @@ func (g *gen) c06keys(cfg c06cfg, n int) [][]byte {
 			k = string(b) + g.c06word(3)
 		case c == 6:
 			k = g.c06word(3) + "x" + p + g.c06word(2) // contains, does not start with
-		case c == 7:
+		case c == 7 || c == 14:
+			// brace arrangements of the hash-tag rule: a `}` in front of the first `{`, empty and unclosed tags
+			k = []string{"}x{" + g.c06word(3) + "}", g.c06word(1) + "}" + g.c06word(1) + "{" + g.c06word(3) + "}" + g.c06word(2),
+				"{}" + g.c06word(3), "{" + g.c06word(3), "}{" + g.c06word(2) + "}", "{" + g.c06word(2) + "}}" + g.c06word(2),
+				"{{" + g.c06word(2) + "}}"}[g.r.Intn(7)]
+		case c == 15:
 			k = "{" + g.c06word(4) + "}" + g.c06word(4) // hash tag
 		case c == 8:
 			k = g.c06word(2) + "{" + p + "}" + "{" + g.c06word(2) + "}"
@@ -799,7 +809,15 @@ func (g *gen) c06cfg(keys func(c06cfg) [][]byte) c06cfg {
 		for i := 0; i < n; i++ {
 			s := g.r.Intn(16384)
 			if g.r.Intn(3) != 0 && len(ks) > 0 {
-				s = int(utils.KeyToSlot(string(ks[g.r.Intn(len(ks))])))
+				k := ks[g.r.Intn(len(ks))]
+				// prefer a key whose hash tag is not the whole story (a `}` in front of the first `{`, several braces)
+				for _, c := range ks {
+					if bytes.Count(c, []byte("}")) > 0 && bytes.IndexByte(c, '}') < bytes.IndexByte(c, '{') && g.r.Intn(2) == 0 {
+						k = c
+						break
+					}
+				}
+				s = int(c06Slot(string(k)))
 			}
 			if g.r.Intn(10) == 0 {
 				s = []int{0, 16383, 16384, 99999}[g.r.Intn(4)]
@@ -897,7 +915,7 @@ func (g *gen) c06path(kind string) {
 				continue
 			}
 			seen[id] = true
-			ents = append(ents, fmt.Sprintf("k:%d:%s:%d", d, hx(k), utils.KeyToSlot(string(k))))
+			ents = append(ents, fmt.Sprintf("k:%d:%s:%d", d, hx(k), c06Slot(string(k))))
 			items = append(items, fmt.Sprintf("c:%s:%s", hx([]byte(c06single[g.r.Intn(len(c06single))])), hx(k)))
 			if g.r.Intn(6) == 0 {
 				items = append(items, fmt.Sprintf("x:%s:%s", hx([]byte(c06bare[g.r.Intn(len(c06bare))])), hx([]byte(g.c06word(4)))))
@@ -948,9 +966,9 @@ func (g *gen) c06path(kind string) {
 	}
 	switch kind {
 	case "incr":
-		g.emit("path %s tdb=%d ls=%d E=_ S=%s", cfg, tdb, utils.KeyToSlot("lua"), strings.Join(items, ","))
+		g.emit("path %s tdb=%d ls=%d E=_ S=%s", cfg, tdb, c06Slot("lua"), strings.Join(items, ","))
 	case "path":
-		g.emit("path %s tdb=%d ls=%d E=%s S=%s", cfg, tdb, utils.KeyToSlot("lua"), e, strings.Join(items, ","))
+		g.emit("path %s tdb=%d ls=%d E=%s S=%s", cfg, tdb, c06Slot("lua"), e, strings.Join(items, ","))
 	case "rump":
 		g.emit("rump %s tdb=%d E=%s", cfg, tdb, e)
 	case "tail":
@@ -971,7 +989,7 @@ func genC06(g *gen) {
 			keys = g.c06keys(cfg, 16)
 		}
 		for _, k := range keys {
-			g.emit("unit %s %d %s %d %s", cfg, g.c06db(), hx(k), utils.KeyToSlot(string(k)), hx([]byte(g.c06cmd())))
+			g.emit("unit %s %d %s %d %s", cfg, g.c06db(), hx(k), c06Slot(string(k)), hx([]byte(g.c06cmd())))
 		}
 	}
 	// model-fidelity stream outside the specification's domain
